@@ -60,7 +60,7 @@ func worldFor(k, t int, seed int64) (*World, error) {
 // corrupt is the binding self-check (development aid): VERIF_PRIMEV_CORRUPT=
 //
 //	panic   the first handled delivery is logged as a panic            -> C05_NoPanic (pass A, VIOLATION)
-//	verdict the first rejected delivery is logged as accepted          -> P1_Admission + drift
+//	inst    the first accepted delivery is logged with a wrong instance id -> P1_Admission + drift
 //	rows    the first stored row is dropped from the logged table       -> P5_Fold + drift
 //	key     the first good key of the end tables is logged as bad       -> P4_KeysGood / P4_AllHaveKeys
 func corrupt(line J, done *bool) {
@@ -73,10 +73,12 @@ func corrupt(line J, done *bool) {
 			line["panic"] = "panic: injected by VERIF_PRIMEV_CORRUPT"
 			*done = true
 		}
-	case "verdict":
-		if line["k"] == "cmt" && line["v"] == "reject" {
-			line["v"] = "accept"
-			*done = true
+	case "inst":
+		if line["k"] == "cmt" && line["v"] == "accept" {
+			if c, ok := line["c"].(J); ok && c["inst"] == "ok" {
+				c["inst"] = "bad"
+				*done = true
+			}
 		}
 	case "rows":
 		if line["k"] == "cmt" {
